@@ -411,6 +411,9 @@ def emit_quant(reg: Registry, path: str) -> List[dict]:
                        "Proof. vm_compute. reflexivity. Qed." % (nm, nm, nm, checksum(dec)))
             span = q["upper"] - q["lower"]
             floats = [dec[j] for j in idx] + [q["lower"] - span, q["upper"] + span, q["lower"], q["upper"], 0.0, -0.0]
+            for j in idx:                      # values between two representable ones: the rounding itself
+                if j + 1 < n:
+                    floats += [(dec[j] + dec[j + 1]) / 2, dec[j] + (dec[j + 1] - dec[j]) * 0.25, dec[j] + (dec[j + 1] - dec[j]) * 0.75]
             cases = []
             for x in floats:
                 try:
@@ -441,6 +444,91 @@ def emit_quant(reg: Registry, path: str) -> List[dict]:
                "Proof. exact (quant_registry_lossless quant_registry C09_quant_registry_ok). Qed.")
     out.append("Print Assumptions C09_quant_registry_lossless.")
     obls.append({"name": "C09_quant_registry_lossless", "detail": "%d quantised-float keys" % len(qs)})
+    txt = "\n".join(out) + "\n"
+    os.makedirs(os.path.dirname(path), exist_ok=True)
+    old = open(path).read() if os.path.exists(path) else None
+    if old != txt:
+        with open(path, "w") as f:
+            f.write(txt)
+    return obls
+
+
+# ------------------------------------------------------------------ date keys (DateModel / DatePrim)
+
+def date_entries(reg: Registry):
+    out = []
+    for e in reg.entries:
+        a = getattr(e.serializer, "ADAPTER", None)
+        if not e.inert and e.ty is not None and type(a).__name__ == "DateAdapter" and isinstance(getattr(a, "_multiplier", None), int):
+            out.append(e)
+    return out
+
+
+def process_is_utc() -> bool:
+    import time
+    return time.timezone == 0 and time.daylight == 0 and time.localtime(1636266600).tm_gmtoff == 0 \
+        and time.localtime(1625140800).tm_gmtoff == 0
+
+
+def date_case_values(ty: str, mult: int, rng, n_random: int):
+    lo, hi = wire_range(ty)
+    secs = [-62135596800, -62135596799, -2208988800, -86401, -86400, -1, 0, 1, 59, 86399, 86400, 951782400, 1098554253,
+            1636263000, 1636266600, 2147483647, 2147483648, 4294967295, 32503680000, 253402300798, 253402300799,
+            253402300800, -62135596801]
+    zs = [lo, lo + 1, hi - 1, hi, hi // 2] + [s * mult for s in secs]
+    if mult > 1:
+        zs += [1098554253192844, 1098554253192843, 999999, 1, 500000, 1500000, 2 ** 53 - 1, 2 ** 53, 2 ** 62, 2 ** 63, 2 ** 64 - 1,
+               1636266600000001, 253402300799999999]
+        for _ in range(n_random):
+            zs.append(rng.randrange(0, 2 ** 51))
+    for _ in range(n_random):
+        zs.append(rng.randrange(max(lo, -2 ** 40), min(hi, 2 ** 40)) if mult == 1 else rng.randrange(0, 253402300799) * mult)
+    out, seen = [], set()
+    for z in zs:
+        if not lo <= z <= hi or z in seen:
+            continue
+        if abs(z) >= 2 ** 53 and abs(z) < 2 ** 63 and int(float(z)) != z:
+            continue          # outside the faithful domain of the binary64 instance (exact int/int division)
+        seen.add(z)
+        out.append(z)
+    return out
+
+
+def emit_dates(reg: Registry, path: str, rng, n_random: int, notes: list) -> List[dict]:
+    """gen/C09_date_gen.v: agreement of the DateModel/DatePrim model with the implementation (decode text and
+    re-encoded integer) on cases computed live; only meaningful when this process runs under UTC"""
+    ds = date_entries(reg)
+    out = ["(* GENERATED by harness/translate/c09_registry.py (date keys) from the live registry under TZ=UTC; rewritten every run. *)",
+           "From Coq Require Import PrimFloat ZArith List Ascii Bool.",
+           "From HV Require Import Subfield.IntAdapters Subfield.DateModel Subfield.DatePrim.",
+           "Import ListNotations.", "Open Scope Z_scope.", ""]
+    obls = []
+    if not process_is_utc():
+        notes.append("date model agreement skipped: the check process does not run under UTC")
+        ds = []
+    for k, e in enumerate(ds):
+        ser = e.serializer
+        mult = int(ser.ADAPTER._multiplier)
+        cases = []
+        for z in date_case_values(e.ty, mult, rng, n_random):
+            try:
+                txt = ser.deserialize({}, z, pod=True)
+            except Exception:
+                txt = None
+            back = None
+            if txt is not None:
+                try:
+                    back = int(ser.serialize({}, txt))
+                except Exception:
+                    back = None
+            cases.append("(%s, %s, %s)" % (coq_z(z), "None" if txt is None else "Some %s" % coq_str(txt),
+                                            "None" if back is None else "Some %s" % coq_z(back)))
+        out.append("(* %s.%s.%s : %s, multiplier %d *)" % (e.key + (e.ty, mult)))
+        out.append("Definition date_cases_%d : list (Z * option (list ascii) * option Z) :=\n  [%s]." % (k, ";\n   ".join(cases)))
+        name = "C09_date_agrees_%d" % k
+        out.append("Example %s : date_agrees %d date_cases_%d = true.\nProof. vm_compute. reflexivity. Qed." % (name, mult, k))
+        obls.append({"name": "%s[%s.%s.%s]" % ((name,) + e.key),
+                     "detail": "binary64 model == implementation on %d integers (decoded text and re-encoded integer, TZ=UTC)" % len(cases)})
     txt = "\n".join(out) + "\n"
     os.makedirs(os.path.dirname(path), exist_ok=True)
     old = open(path).read() if os.path.exists(path) else None
